@@ -1,0 +1,56 @@
+//go:build verif
+
+package state
+
+import (
+	"0chain.net/chaincore/state"
+	"0chain.net/core/datastore"
+	"github.com/0chain/common/core/util"
+)
+
+// VerifObserverI receives state-context events when the verif build tag is on.
+// It must not mutate the observed values.
+type VerifObserverI interface {
+	// ObsGet is called after GetTrieNode filled v; cacheHit tells where it came from.
+	// trieRead reads the same key straight from the trie (bypassing the cache) into out.
+	ObsGet(sc *StateContext, key datastore.Key, v util.MPTSerializable, cacheHit bool, trieRead func(out util.MPTSerializable) error)
+	ObsInsert(sc *StateContext, key datastore.Key, v util.MPTSerializable)
+	ObsDelete(sc *StateContext, key datastore.Key)
+	ObsTransfer(sc *StateContext, t *state.Transfer)
+	ObsSignedTransfer(sc *StateContext, st *state.SignedTransfer)
+}
+
+// VerifObserver is nil unless a verification harness installs one.
+var VerifObserver VerifObserverI
+
+func verifObsGet(sc *StateContext, key datastore.Key, v util.MPTSerializable, cacheHit bool) {
+	if o := VerifObserver; o != nil {
+		o.ObsGet(sc, key, v, cacheHit, func(out util.MPTSerializable) error {
+			return sc.getNodeValue(key, out)
+		})
+	}
+}
+
+func verifObsInsert(sc *StateContext, key datastore.Key, v util.MPTSerializable) {
+	if o := VerifObserver; o != nil {
+		o.ObsInsert(sc, key, v)
+	}
+}
+
+func verifObsDelete(sc *StateContext, key datastore.Key) {
+	if o := VerifObserver; o != nil {
+		o.ObsDelete(sc, key)
+	}
+}
+
+func verifObsTransfer(sc *StateContext, t *state.Transfer) {
+	if o := VerifObserver; o != nil {
+		o.ObsTransfer(sc, t)
+	}
+}
+
+func verifObsSignedTransfer(sc *StateContext, st *state.SignedTransfer) {
+	if o := VerifObserver; o != nil {
+		o.ObsSignedTransfer(sc, st)
+	}
+}
